@@ -106,4 +106,33 @@ PLAN = {
         "trusted": COMMON_TRUSTED + ["model R: machine arithmetic treated as mathematical", "pow / sqrt uninterpreted with the sidecar's axioms"],
         "explanation": "contracts on the displacement routines of the closed-form potentials; float totality (no arithmetic failure down to denormals) is not decided here",
     },
+    "C18": {
+        "sidecars": ["contracts.walker_c18"],
+        "level": "other",
+        "trusted": COMMON_TRUSTED + ["model R: machine arithmetic treated as mathematical"],
+        "explanation": "sample_cell / total_rate proved against the table invariant; _build_table establishing it is a bounded native check",
+    },
+    "C16": {
+        "sidecars": [],
+        "extra": ["bounded.provider:cells"],
+        "level": "other",
+        "bounded_only": True,
+        "trusted": COMMON_TRUSTED,
+        "explanation": "bounded (exhaustive over a stated finite family of grids) native check of the partition and torus relations",
+    },
+    "C04": {
+        "sidecars": ["contracts.thinning_c04"],
+        "extra": ["bounded.provider:domination"],
+        "level": "other",
+        "trusted": COMMON_TRUSTED + ["model R"],
+        "explanation": "confirmation ratio and frame of the two-leaf bounding-potential confirmation proved; domination of the 1/r bound is a bounded grid check",
+    },
+    "C10": {
+        "sidecars": [],
+        "extra": ["monitors.provider:bounded"],
+        "level": "other",
+        "bounded_only": True,
+        "trusted": COMMON_TRUSTED + ["run-time monitors are a bounded stand-in: they cover the shipped configurations for the stated number of events only"],
+        "explanation": "bounded run-time monitor: near + surplus + far targets partition the other relevant units at every activator call",
+    },
 }
